@@ -1,5 +1,5 @@
 # replay of a bounded stand-in violation (C11): re-run native/c11_compilers.py
 import sys
-print("passive n=6 modes=[0, 5, 2] gates=[('BSgate', (2, 0)), ('BSgate', (0, 5)), ('Rgate', (0,)), ('Fouriergate', (2,)), ('Rgate', (2,)), ('Rgate', (5,)), ('MZgate', (0, 5)), ('Rgate', (0,)), ('MZgate', (0, 5)), ('MZgate', (2, 5)), ('MZgate', (0, 5)), ('Fouriergate', (2,)), ('MZgate', (0, 5)), ('MZgate', (2, 0))]: compile raised CircuitError: The operation Fouriergate cannot be used with the compiler 'passive'.")
+print("gaussian_merge n=2 gates=[('S2gate', (0, 1)), ('Sgate', (1,)), ('Vgate', (0,)), ('MZgate', (0, 1)), ('BSgate', (1, 0)), ('Dgate', (0,)), ('Kgate', (0,)), ('Rgate', (1,)), ('MZgate', (1, 0)), ('MZgate', (1, 0)), ('Vgate', (0,))]: with the opaque gates interpreted as fixed unitaries the compiled program [('GaussianTransform', [0, 1]), ('Vgate', [0]), ('GaussianTransform', [0, 1]), ('Dgate', [0]), ('Kgate', [0]), ('GaussianTransform', [0, 1]), ('Vgate', [0]), ('MeasureFock', [0, 1])] computes something else (max difference 0.267)")
 print('REPLAY-VIOLATION')
 sys.exit(1)
